@@ -1,5 +1,7 @@
 import Cdecao.Proofs.NodeWrong
 import Cdecao.Engine.BabOpt
+import Cdecao.Proofs.NodeSpecAsm
+import Cdecao.Proofs.SpecExec
 /-! # C02 — without room limits the result is optimal; "no solution" means none exists
 
 The full statement is FALSE for the code (known finding F1: the branching never cancels a course
@@ -63,5 +65,67 @@ theorem C02_compose {ν σ : Type} [Eng3.Solver ν σ] {S : Type} {score : S →
     (∀ sol, c.best = some sol → Sol root (sem sol) ∧ score (sem sol) = c.bestScore ∧
       ∀ s, Sol root s → score s ≤ c.bestScore) :=
   Eng3.bab_optimal h hT htop hr hd
+
+theorem noFreeableb_sound (I : Inst) (h : noFreeableb I = true) : NoFreeable I := by
+  intro c p hc hin hch
+  simp only [noFreeableb, List.all_eq_true, Bool.or_eq_true] at h
+  have hmem : I.course c ∈ I.cs := by
+    simp only [Inst.course, Inst.C] at hc ⊢
+    rw [List.getD_eq_getElem?_getD, List.getElem?_eq_getElem hc]
+    exact List.getElem_mem hc
+  rcases h _ hmem with hf | hall
+  · exact hf
+  · exfalso
+    have hp : p ∈ (I.course c).instructors := by
+      simpa [Inst.instructs, List.contains_iff_mem] using hin
+    have := hall p hp
+    simp only [Inst.hasChoices, Bool.not_eq_true'] at hch
+    rw [hch] at this
+    contradiction
+
+/-- **C02 on the class outside F1** (assembled end to end): no room list, valid instance
+    (`validb`), no participant with own choices instructs a non-fixed course (`noFreeableb`).
+    For every thread count `T ≥ 1`, every `top ≥ P · 50000`, every schedule: when all workers have
+    stopped, (i) nothing is reported only if NO assignment satisfies the hard constraints, and
+    (ii) what is reported satisfies them, its reported score is its documented score, and no
+    assignment satisfying the hard constraints (any subset of non-fixed courses cancelled) scores
+    more. -/
+theorem C02_partial (I : Inst) (R : RoomFns) (hrooms : I.rooms = none) (hv : validb I = true)
+    (hnf : noFreeableb I = true) (top T : Nat) (hT : 0 < T) (htop : I.P * G.W ≤ top) :
+    letI := solverOf I R
+    ∀ c : Eng3.Cfg Node (List (Option Nat)), Eng3.Reach rootNode top T c → Eng3.AllDone c →
+      (c.best = none → ∀ a, G.hardOKb I a = false) ∧
+      (∀ al, c.best = some al → ∃ a : Nat → Option Nat, al = (List.range I.P).map a ∧ G.hardOKb I a = true ∧
+        c.bestScore = G.scoreOfL I a ∧ ∀ a', G.hardOKb I a' = true → G.scoreOfL I a' ≤ c.bestScore) := by
+  letI := solverOf I R
+  intro c hr hd
+  obtain ⟨hI, hmm, hpen⟩ := validb_sound I hv
+  obtain ⟨h1, h2⟩ := N2.C02_partial_top I R hrooms hI hmm (noFreeableb_sound I hnf) hpen top T hT htop c hr hd
+  refine ⟨?_, ?_⟩
+  · intro hn a
+    have := h1 hn a
+    rw [← G.hardOKb_iff] at this
+    simpa using this
+  · intro al hal
+    obtain ⟨a, ha, hh, hs, hopt⟩ := h2 al hal
+    refine ⟨a, ha, (G.hardOKb_iff I a).2 hh, by rw [G.scoreOfL_eq]; exact hs, ?_⟩
+    intro a' ha'
+    rw [G.scoreOfL_eq]
+    exact hopt a' ((G.hardOKb_iff I a').1 ha')
+
+/-- non-vacuity: an instance in the class (the instructor of the non-fixed course 0 has no choices) -/
+example : validb { cs := [⟨1, 2, false, [0]⟩, ⟨0, 3, true, []⟩], ps := [⟨[]⟩, ⟨[⟨0, 0⟩, ⟨1, 5⟩]⟩, ⟨[⟨1, 0⟩]⟩], rooms := none } = true ∧
+    noFreeableb { cs := [⟨1, 2, false, [0]⟩, ⟨0, 3, true, []⟩], ps := [⟨[]⟩, ⟨[⟨0, 0⟩, ⟨1, 5⟩]⟩, ⟨[⟨1, 0⟩]⟩], rooms := none } = true := by
+  decide
+
+/-- the witness of the known finding F1 is a valid instance OUTSIDE the class (so `C02_partial`
+    does not apply to it), and an assignment satisfying the hard constraints exists for it
+    (`[X, X]`, course Y cancelled) — the model's and the code's answer "no solution" on it is
+    replayed by the check on every run (corpus/C02/F1_freeable_instructor.json) -/
+example : validb { cs := [⟨2, 2, false, []⟩, ⟨0, 5, false, [1]⟩], ps := [⟨[⟨0, 0⟩]⟩, ⟨[⟨0, 0⟩]⟩], rooms := none } = true ∧
+    noFreeableb { cs := [⟨2, 2, false, []⟩, ⟨0, 5, false, [1]⟩], ps := [⟨[⟨0, 0⟩]⟩, ⟨[⟨0, 0⟩]⟩], rooms := none } = false ∧
+    G.hardOKb { cs := [⟨2, 2, false, []⟩, ⟨0, 5, false, [1]⟩], ps := [⟨[⟨0, 0⟩]⟩, ⟨[⟨0, 0⟩]⟩], rooms := none }
+      (fun _ => some 0) = true := by
+  decide
 
 end Props
